@@ -13,6 +13,8 @@ m=json.load(open(sys.argv[1]))
 print(m.get('demo_crate','?'), m.get('demo_dest','?'), ' '.join(m.get('demo_cargo_args',[])))
 E
 )
+flags=$(python3 -c "import json,sys; print((json.load(open('$dir/meta.json')).get('demo_env') or {}).get('RUSTFLAGS','') if isinstance(json.load(open('$dir/meta.json')).get('demo_env'),dict) else '')" 2>/dev/null)
+[ -n "$flags" ] && export SEED_DEMO_RUSTFLAGS="$flags"
 src=demo/$(basename "$dest")
 echo "== $id-$slug: crate=$crate dest=$dest args=$args"
 tools/seeded.sh confirm "$dir" "$crate" "$src" "$dest" $args | tail -4 | cut -c1-400
